@@ -950,6 +950,11 @@ class Session:
         self.phase = 0
         # BIP342: the initial stack of a tapscript execution is limited to 1000 elements before anything runs
         self.prefail = 'STACK_SIZE' if (sv == TAPSCRIPT and len(self.cur.stack) > MAX_STACK_SIZE) else None
+        # the scriptSig push-only rules, where consensus applies them: with SIGPUSHONLY before anything is evaluated; for a
+        # pay-to-script-hash output after the scriptPubKey has been evaluated successfully (just before the redeem script is unpacked)
+        self.scriptsig_push_only = is_push_only(self.cur.script) if self.successor else True
+        if self.successor and flags & F["SIGPUSHONLY"] and not self.scriptsig_push_only:
+            self.prefail = 'SIG_PUSHONLY'
         if self.cur.at_end() and not self.successor and self.p2sh_copy is None and not commitment_steps:
             # an empty script has nothing to execute: the session is complete from the start
             self.done = True
@@ -996,6 +1001,8 @@ class Session:
                 return ('fail', 'UNBALANCED_CONDITIONAL', 'switch')
             if not c.stack or not cast_bool(c.stack[-1]):
                 return ('fail', 'EVAL_FALSE', 'switch')
+            if not self.scriptsig_push_only:
+                return ('fail', 'SIG_PUSHONLY', 'switch')
             st = self.p2sh_copy
             self.p2sh_copy = None
             if not st:
